@@ -70,9 +70,10 @@ def run(ctx):
     ctx.log("B: %d cases (site x kind x wrapping x family x LOG_CLIENT_IP); as-implemented model predicts %d tainted (site,kind,wrapping) paths"
             % (len(cases), len(predicted)))
     # the transport-error cases sleep until the handler's randomised 5-10 s deadline: the quick tier runs a slice of them
+    PRE = ("accept.File", "geoip.CC", "geoip.ASN")
     main_cases = []
     for c in cases:
-        if c["site"].startswith("ingest.") or c["site"] == "dial":
+        if c["site"].startswith("ingest.") or c["site"] == "dial" or c["site"] in PRE:
             continue
         if c["site"] == "transport.Wrap" and not thorough and not (c["fam"] == "v4" and c["w"] in ("op", "fmt")):
             continue
@@ -91,6 +92,24 @@ def run(ctx):
                        "^TestVerifTaintCases$", env={"VERIF_IN": inp, "VERIF_OUT": outm, "VERIF_WORKERS": 256 if thorough else 96},
                        timeout=1500, extra_overlays=[("pkg/station/lib", ["pkg_station_lib/taint_bridge_verif.go"], "lib")])
     rows_m = ctx.read_results(outm)
+    # the sites before classification starts: real handleNewConn on a loopback TCP connection with the descriptor limit at 1
+    # (clientConn.File() fails), real handleNewTCPConn with the real MaxMind reader over IPv4-only database files
+    inpre = os.path.join(ctx.scratch, "taint_cases_pre.ndjson")
+    with open(inpre, "w") as f:
+        for c in cases:
+            if c["site"] in PRE:
+                f.write(json.dumps(c) + "\n")
+    outp = os.path.join(ctx.scratch, "taint_pre.ndjson")
+    resp = ctx.go_test("cmd/application", ["common/vcommon_test.go", "cmd_application/taint_verif_test.go"], "main",
+                       "^TestVerifTaintPre$", env={"VERIF_IN": inpre, "VERIF_OUT": outp}, timeout=600,
+                       extra_overlays=[("pkg/station/lib", ["pkg_station_lib/taint_bridge_verif.go"], "lib")])
+    rows_p = ctx.read_results(outp)
+    psum = [x for x in rows_p if x.get("kind") == "summary"]
+    if not psum or psum[0].get("geoip_selftest") != 2:
+        raise vlib.InfraError("pre-classification driver did not finish or its GeoIP databases do not fail as designed:\n%s" % resp["out"][-3000:])
+    reached = [x for x in rows_p if x.get("kind") == "result" and not x.get("skipped")]
+    if len(reached) < 6 or not all(x.get("reached") for x in reached):
+        raise vlib.InfraError("pre-classification cases did not reach their log site: %s" % [x for x in reached if not x.get("reached")][:3])
     outl = os.path.join(ctx.scratch, "taint_lib.ndjson")
     resl = ctx.go_test("pkg/station/lib", ["common/vcommon_test.go", "pkg_station_lib/relay_verif_test.go",
                                            "pkg_station_lib/taint_verif_test.go"], "lib",
@@ -102,7 +121,7 @@ def run(ctx):
     shown = must_show = 0
     observed = set()
     class_notes = collections.Counter()
-    for drv, rows, res in (("main", rows_m, resm), ("lib", rows_l, resl)):
+    for drv, rows, res in (("main", rows_m, resm), ("pre", rows_p, resp), ("lib", rows_l, resl)):
         summ = [x for x in rows if x.get("kind") == "summary"]
         if not summ:
             raise vlib.InfraError("%s driver did not finish:\n%s" % (drv, res["out"][-3000:]))
@@ -182,7 +201,10 @@ def run(ctx):
         "for SetDeadline / Close both the real local-only shape and the both-endpoints shape the property quantifies over are injected",
         "the transport-error site uses an in-test WrappingTransport that performs one Write on the connection and returns its error "
         "(the shape of obfs4's server handshake); quick tier runs a slice of these cases because each sleeps 5-10 s",
-        "handleNewConn (needs SO_ORIGINAL_DST), SetLinger (only on *net.TCPConn) and the PROXY-header write error are not driven",
+        "handleNewConn is driven up to its File() call (real loopback connection, descriptor limit 1); behind it it needs SO_ORIGINAL_DST; "
+        "SetLinger (only on *net.TCPConn) and the PROXY-header write error are not driven",
+        "GeoIP lookup failures are provoked with the real MaxMind reader over minimal database files the driver writes (IPv4-only country / ASN "
+        "databases, IPv6 client)",
         "the asynchronous Close(src) may record its error after the tunnel summary was printed; such runs show nothing to scan",
         "default log level (Error); Debug/Trace/Warn output is outside the property",
     ]
